@@ -187,6 +187,10 @@ class Gateway:
         sensor = self.sensors[sensor_id]
 
         if sensor.is_smart_sleep_node:
+            # Raise now if the command can't be created when the node wakes up.
+            self.create_message_to_set_sensor_value(
+                sensor, child_id, value_type, value, **kwargs
+            )
             sensor.set_child_desired_state(child_id, value_type, value)
             return
 
